@@ -10,7 +10,7 @@ SPECS = os.path.join(os.path.dirname(os.path.dirname(os.path.abspath(__file__)))
 
 
 def _run(module, args, timeout=400):
-    out = tempfile.mkdtemp(prefix="apa-", dir="/tmp")
+    out = tempfile.mkdtemp(prefix="apa-")     # removed again below
     t0 = time.time()
     try:
         p = subprocess.run(["apalache-mc", "check", "--out-dir=" + out] + args + [module + ".tla"], cwd=SPECS,
